@@ -7,6 +7,9 @@ import (
 	"fmt"
 	"io"
 	"math"
+	"runtime"
+	"sync"
+	"sync/atomic"
 	"testing"
 
 	"github.com/cloudwego/gopkg/bufiox"
@@ -51,6 +54,16 @@ func (f *fullTransport) Flush(_ context.Context) error { return nil }
 func (f *fullTransport) Open() error                   { return nil }
 func (f *fullTransport) IsOpen() bool                  { return true }
 func (f *fullTransport) Close() error                  { return nil }
+
+// uncomparableRW is a non-pointer io.ReadWriter whose type is not comparable (slice field).
+type uncomparableRW struct {
+	tag   []int
+	inner *bytes.Buffer
+}
+
+func (u uncomparableRW) Read(p []byte) (int, error)  { return u.inner.Read(p) }
+func (u uncomparableRW) Write(p []byte) (int, error) { return u.inner.Write(p) }
+func (u uncomparableRW) ReadableLen() int            { return len(u.tag) }
 
 type onlyRW struct {
 	r io.Reader
@@ -339,6 +352,63 @@ func checkBridge(c BridgeCase, cv *cov) (v *evid.Violation) {
 			v = evid.Failf("NewDefaultTransport over a buffer transport (an io.ReadWriter without ReadableLen): RemainingBytes()=%d, want max uint64", got)
 			return
 		}
+		// several generic transports alive at once, some closed (Close is inert for them), each must keep
+		// answering for its own object; objects of an uncomparable value type are legal io.ReadWriters too
+		{
+			type live struct {
+				tr  apache.TTransport
+				obj *rwReadable
+			}
+			var lives []live
+			ns := append(append([]int{}, c.Readable...), 3, 11, 0, 29)
+			for k, n := range ns {
+				if n == math.MinInt64 {
+					n = -1
+				}
+				o := &rwReadable{n: n}
+				l := live{apache.NewDefaultTransport(o), o}
+				lives = append(lives, l)
+				if k%2 == 0 {
+					l.tr.Close()
+				}
+				if k%3 == 0 {
+					l.tr.Close() // closing twice is as inert as closing once
+				}
+			}
+			for k, l := range lives {
+				want := uint64(math.MaxUint64)
+				if l.obj.n > 0 {
+					want = uint64(l.obj.n)
+				}
+				if got := l.tr.RemainingBytes(); got != want {
+					v = evid.Failf("generic transport %d of %d live ones (some closed in between) over an object with ReadableLen()=%d: RemainingBytes()=%d, want %d", k, len(lives), l.obj.n, got, want)
+					return
+				}
+				msg := []byte{byte(k), 'm'}
+				l.tr.Write(msg)
+				if !bytes.Equal(l.obj.Bytes(), msg) {
+					v = evid.Failf("generic transport %d of %d live ones: Write did not reach its own wrapped object", k, len(lives))
+					return
+				}
+			}
+			for rep := 0; rep < 3; rep++ {
+				u := uncomparableRW{tag: make([]int, rep*4), inner: &bytes.Buffer{}}
+				d := apache.NewDefaultTransport(u)
+				want := uint64(math.MaxUint64)
+				if rep > 0 {
+					want = uint64(rep * 4)
+				}
+				if got := d.RemainingBytes(); got != want {
+					v = evid.Failf("generic transport over a struct value with a slice field (uncomparable type), ReadableLen()=%d: RemainingBytes()=%d, want %d", rep*4, got, want)
+					return
+				}
+				d.Write([]byte("q"))
+				if u.inner.String() != "q" {
+					v = evid.Failf("generic transport over an uncomparable struct value does not pass Write through")
+					return
+				}
+			}
+		}
 		inner := &rwPlain{}
 		d := apache.NewDefaultTransport(onlyRW{inner, inner})
 		if got := d.RemainingBytes(); got != math.MaxUint64 {
@@ -384,4 +454,89 @@ func TestC19_Random(t *testing.T) {
 	defer rec.Flush()
 	rec.Assume("callback registrations are process globals; the check clears them first and runs single-threaded")
 	runRapid(t, rec, "c19_bridge", evid.Pick(40000, 1000000), genBridgeCase, checkBridge)
+}
+
+// TestC19_ConcurrentRegister: the three callbacks are registered by three goroutines at the same time
+// (different callbacks, so the registrations are independent of each other); after they have all
+// returned, every callback must be in place.
+func TestC19_ConcurrentRegister(t *testing.T) {
+	rec := evid.New("C19", "c19_concurrent_register", "rounds: three goroutines leave a spin barrier together and register the check, read and write callback respectively (in later rounds some unregister with nil instead); after all three returned, each of CheckTStruct/ThriftRead/ThriftWrite must reach the callback registered in this round (identity-checked result) or yield the not-registered error; every round is one evaluation; non-trivial = always")
+	defer rec.Flush()
+	defer func() {
+		apache.RegisterCheckTStruct(nil)
+		apache.RegisterThriftRead(nil)
+		apache.RegisterThriftWrite(nil)
+	}()
+	rounds := evid.Pick(60000, 1500000)
+	b := evid.NewBatch()
+	old := runtime.GOMAXPROCS(0)
+	if old < 4 {
+		runtime.GOMAXPROCS(4)
+		defer runtime.GOMAXPROCS(old)
+	}
+	rd := bufiox.NewBytesReader([]byte{1})
+	var tgt []byte
+	wr := bufiox.NewBytesWriter(&tgt)
+	for r := 0; r < rounds; r++ {
+		errs := [3]error{fmt.Errorf("check %d", r), fmt.Errorf("read %d", r), fmt.Errorf("write %d", r)}
+		unreg := [3]bool{r%7 == 3, r%11 == 5, r%13 == 7}
+		var ready int32
+		var wg sync.WaitGroup
+		wg.Add(3)
+		arrive := func() {
+			atomic.AddInt32(&ready, 1)
+			for atomic.LoadInt32(&ready) < 3 {
+			}
+		}
+		go func() {
+			defer wg.Done()
+			arrive()
+			if unreg[0] {
+				apache.RegisterCheckTStruct(nil)
+			} else {
+				apache.RegisterCheckTStruct(func(interface{}) error { return errs[0] })
+			}
+		}()
+		go func() {
+			defer wg.Done()
+			arrive()
+			if unreg[1] {
+				apache.RegisterThriftRead(nil)
+			} else {
+				apache.RegisterThriftRead(func(bufiox.Reader, interface{}) error { return errs[1] })
+			}
+		}()
+		go func() {
+			defer wg.Done()
+			arrive()
+			if unreg[2] {
+				apache.RegisterThriftWrite(nil)
+			} else {
+				apache.RegisterThriftWrite(func(bufiox.Writer, interface{}) error { return errs[2] })
+			}
+		}()
+		wg.Wait()
+		got := [3]error{apache.CheckTStruct(&r), apache.ThriftRead(rd, &r), apache.ThriftWrite(wr, &r)}
+		b.Evals++
+		b.Distinct++
+		b.Nontrivial++
+		for k := 0; k < 3; k++ {
+			name := []string{"CheckTStruct", "ThriftRead", "ThriftWrite"}[k]
+			if unreg[k] {
+				if got[k] == nil || got[k] == errs[k] {
+					failEnum(t, rec, "c19_bridge", BridgeCase{Ops: []TOp{{K: "call_check"}}}, evid.Failf("round %d: %s after its callback was unregistered (while two other callbacks were being registered concurrently) returned %v, want the not-registered error", r, name, got[k]))
+					rec.Merge(b)
+					return
+				}
+				continue
+			}
+			if got[k] != errs[k] {
+				failEnum(t, rec, "c19_bridge", BridgeCase{Ops: []TOp{{K: "reg_check"}, {K: "reg_read"}, {K: "reg_write"}}}, evid.Failf("round %d: the three callbacks were registered by three goroutines at the same time; afterwards %s returned %v instead of the result of the callback registered for it (%v): a registration was lost", r, name, got[k], errs[k]))
+				rec.Merge(b)
+				return
+			}
+		}
+	}
+	rec.Merge(b)
+	rec.Sample(map[string]interface{}{"rounds": rounds, "goroutines_per_round": 3})
 }
